@@ -362,3 +362,54 @@ func isPureCall(s, name string) bool {
 	}
 	return false
 }
+
+// splitTop strips one layer of outer parentheses from s and splits it at the
+// last top-level occurrence of " op ".
+func splitTop(s, op string) (l, r string, ok bool) {
+	if len(s) < 2 || s[0] != '(' || s[len(s)-1] != ')' {
+		return "", "", false
+	}
+	in := s[1 : len(s)-1]
+	depth := 0
+	pat := " " + op + " "
+	idx := -1
+	for i := 0; i < len(in); i++ {
+		switch in[i] {
+		case '(', '[':
+			depth++
+		case ')', ']':
+			depth--
+			if depth < 0 {
+				return "", "", false
+			}
+		}
+		if depth == 0 && strings.HasPrefix(in[i:], pat) {
+			idx = i
+		}
+	}
+	if idx < 0 || depth != 0 {
+		return "", "", false
+	}
+	return in[:idx], in[idx+len(pat):], true
+}
+
+// unwrapCall returns x for "name(x)" with balanced parentheses.
+func unwrapCall(s, name string) (string, bool) {
+	if !strings.HasPrefix(s, name+"(") || !strings.HasSuffix(s, ")") {
+		return "", false
+	}
+	in := s[len(name)+1 : len(s)-1]
+	depth := 0
+	for i := 0; i < len(in); i++ {
+		switch in[i] {
+		case '(', '[':
+			depth++
+		case ')', ']':
+			depth--
+			if depth < 0 {
+				return "", false
+			}
+		}
+	}
+	return in, depth == 0
+}
